@@ -258,6 +258,12 @@ pub fn judge(sc: &Scenario, ex: &Exec, reference: &Exec) -> Option<Viol> {
             break;
         }
         if rr.status == Status::NotRun || ee.status == Status::NotRun {
+            // unrelated work that panicked took the shared session down with it: that the noise
+            // panics at all is C01's subject; nothing can be said about P after it
+            let noise_panicked = ex.threads.iter().any(|t| t.items.iter().any(|it| it.status == Status::Panic && !matches!(it.role, Role::P(_))));
+            if noise_panicked && ee.status == Status::NotRun {
+                continue;
+            }
             if rr.status != ee.status {
                 return Some(Viol { clause: "status-divergence".into(), detail: format!("statement {}: reference {} vs {} in environment {}", i, rr.status.short(), ee.status.short(), sc.kind) });
             }
